@@ -801,6 +801,8 @@ func (sp *shaperOpentype) shape(font *Font, buffer *Buffer, features []Feature) 
 		fmt.Println("FORMING CLUSTER :", c.buffer.Info)
 	}
 
+	// [ensureNativeDirection] may swap the contexts and their flags
+	savedContext, savedFlags := c.buffer.context, c.buffer.Flags
 	c.buffer.ensureNativeDirection()
 
 	if debugMode {
@@ -828,6 +830,7 @@ func (sp *shaperOpentype) shape(font *Font, buffer *Buffer, features []Feature) 
 	propagateFlags(c.buffer)
 
 	c.buffer.Props.Direction = c.targetDirection
+	c.buffer.context, c.buffer.Flags = savedContext, savedFlags
 
 	c.buffer.maxOps = maxOpsDefault
 }
